@@ -97,7 +97,7 @@ void vf::run_case(Src &s, Ctx &c)
     c.count(tuned.empty() ? "params:defaults" : "params:tuned");
     // decoded last, so that saved cases (which end before this byte) keep their meaning: a quarter of the cases get a budget from the top of
     // the range - the informed-tree planners only start their forward search after a batch of samples and a reverse search
-    if (s.chance(64))
+    if (s.chance(100))
     {
         budget = std::max(budget, (long)(s.real(1000, 4000) * pi.budgetScale));
         c.count("budget:boosted");
